@@ -72,6 +72,43 @@ def run_pytezos(inputs, code, env):
     return (stk.items if err is None else None), err
 
 
+FAILING_CELLS = [
+    "UNIT ; FAILWITH",
+    "PUSH nat 1 ; PUSH nat 2 ; DIP { UNIT ; FAILWITH }",
+    "PUSH nat 1 ; PUSH nat 2 ; PUSH nat 3 ; DIP 2 { PUSH int 1 ; PUSH string \"a\" ; ADD }",
+    "PUSH nat 1 ; PUSH nat 2 ; DIP { DIP { UNIT ; FAILWITH } }",
+    "PUSH nat 1 ; PUSH nat 2 ; DIP { PUSH mutez 9223372036854775807 ; PUSH mutez 1 ; ADD }",
+    "PUSH (list nat) { 1 } ; PUSH nat 0 ; DIP { ITER { FAILWITH } }",
+    "PUSH nat 1 ; PUSH bool True ; DIP { PUSH bool True ; IF { UNIT ; FAILWITH } { } }",
+    "PUSH nat 1 ; PUSH nat 2 ; DIG 5",
+    "PUSH nat 1 ; DROP 3",
+    "LAMBDA unit unit { FAILWITH } ; PUSH nat 4 ; DIP { UNIT ; EXEC }",
+]
+
+
+def run_pytezos_session(inputs, code, env, cells):
+    """The documented REPL route: one Interpreter, first the failing cells (each must report an error), then the program as
+    text. Returns (items | None, error | None), or ("skip", reason) when the route cannot be used for this program."""
+    from pytezos.michelson.format import micheline_to_michelson
+    from pytezos.michelson.parse import michelson_to_micheline
+    from pytezos.michelson.repl import Interpreter
+    full = prelude(inputs) + code
+    try:
+        text = micheline_to_michelson(full, inline=True)
+        if michelson_to_micheline(text) != full:
+            return "skip", "format-parse-interference"  # C18's subject
+    except Exception as e:
+        return "skip", "format-raise:%s" % type(e).__name__
+    it = Interpreter()
+    it.context = pytezos_context(env)
+    for cell in cells:
+        r = it.execute(cell)
+        if r.error is None:
+            return "skip", "prelude-did-not-fail"
+    r = it.execute(text)
+    return (list(it.stack.items) if r.error is None else None), r.error
+
+
 def failwith_repr(t, v):
     """pytezos exposes the FAILWITH payload only as repr(value)."""
     from pytezos.michelson.types.base import MichelsonType
@@ -138,7 +175,13 @@ def _compare_runs(inputs, code, env, case, label="program", pytezos_code=None):
     ref = run_reference(inputs, code, env)
     if ref[0] == "budget":
         return "budget", ref
-    items, err = run_pytezos(inputs, code if pytezos_code is None else pytezos_code, env)
+    if case.get("session") is not None:
+        items, err = run_pytezos_session(inputs, code if pytezos_code is None else pytezos_code, env, case["session"])
+        if items == "skip":
+            return "session-skip:" + err, ref
+        label = "program run after %d failing REPL cell(s)" % len(case["session"])
+    else:
+        items, err = run_pytezos(inputs, code if pytezos_code is None else pytezos_code, env)
     if ref[0] == "ok":
         if err is not None:
             raise Violation("%s fails in pytezos (%r) but the Michelson semantics gives a stack of %d: %s" % (
